@@ -53,7 +53,17 @@ def size_jobs(rng, tier):
 
 
 def EXTRA_SIZE_JOBS(rng, tier):
-    return []
+    L = []
+    # Aztec: every compact and full-range size (explicit layers) + automatic sizes
+    for req in (list(range(-4, 0)) + list(range(1, 33)) if tier == "thorough" else [-4, -1, 1, 4, 12, 27, 32]):
+        L.append("az 23 %d %s" % (req, J.hx("AZTEC %d" % req)))
+    for n in (0, 1, 20, 100, 500, 1500):
+        L.append("az %d 0 %s" % (rng.choice([0, 23, 33, 90]), J.hx("".join(rng.choice("AbC 12.,") for _ in range(n)))))
+    # PDF417: every level, several lengths (different row/column shapes)
+    for lvl in range(9):
+        for n in ((0, 30, 400) if tier == "quick" else (0, 1, 10, 30, 100, 400, 900, 1500)):
+            L.append("pdf %d %s" % (lvl, J.hx("".join(rng.choice("Pdf 417,;") for _ in range(n)))))
+    return L
 
 
 def cases(tier, rng):
@@ -62,6 +72,10 @@ def cases(tier, rng):
         if j.split()[1] in c10.ENCODERS:
             L.append("acc " + j[4:])
     return L
+
+
+def compare(impl_out, model_out):
+    return c10.compare(impl_out, model_out)
 
 
 def nontrivial(line, out):
